@@ -70,8 +70,11 @@ func genCase(t *rapid.T) Case {
 		switch w := rapid.IntRange(0, 9).Draw(t, "kind"); {
 		case w < 7:
 			c.Ops = append(c.Ops, Op{Op: "append", N: rapid.OneOf(rapid.Int64Range(1, 12), rapid.Int64Range(1, 2*c.LogSize), rapid.Just(c.LogSize), rapid.Just(c.LogSize+1)).Draw(t, "n")})
-		case w < 9:
+		case w < 8:
 			c.Ops = append(c.Ops, Op{Op: "gc"})
+		case w < 9:
+			// the log writer is restarted further ahead: a gap separates the older segments (and the snapshot) from the newest data
+			c.Ops = append(c.Ops, Op{Op: "gap", N: rapid.Int64Range(1, 3*c.LogSize).Draw(t, "gap")})
 		default:
 			c.Ops = append(c.Ops, Op{Op: "rdbpartial", N: rapid.Int64Range(9, 2*c.LogSize).Draw(t, "rdbSize2")})
 		}
@@ -301,6 +304,13 @@ func buildImages(c Case, base string) (imgs []string, lins []int, err string) {
 			right += op.N
 		case "gc":
 			ch.Gc()
+		case "gap":
+			ch.StopWriter()
+			right += op.N
+			if e := ch.StartAof(right); e != "" {
+				return nil, nil, e
+			}
+			started = true
 		}
 		snap(i)
 	}
@@ -415,6 +425,16 @@ func check(t pbt.TB, c Case) {
 			}
 			fs, facts := judge(c, lins[i], dst, tr.Kind == "alter-closed" && tr.Arg2 >= 16, tr.Kind == "truncate-newest")
 			n++
+			if len(fs) == 0 && tr.Kind != "truncate-newest" {
+				// the start-up itself removes files (segments behind a gap, a snapshot without its log): a second start must
+				// find a directory that is consistent again
+				fs2, _ := judge(c, lins[i], dst, tr.Kind == "alter-closed" && tr.Arg2 >= 16, true)
+				n++
+				for k := range fs2 {
+					fs2[k].sig += ":second-reopen"
+				}
+				fs = append(fs, fs2...)
+			}
 			st.Class("image:" + tr.Kind)
 			if tr.Kind != "none" && facts["served-bytes"] {
 				nt = true
